@@ -26,7 +26,16 @@ Definition randomize_once (k : rkind) (g : list Z) (s : option (list Z)) (t : ta
   end.
 
 (* ---- built-in test functions on the requested response column ---- *)
-Inductive testfn := MeanDiffF (idx : nat) | AnovaF (idx : nat).
+Inductive testfn := MeanDiffF (idx : nat) | AnovaF (idx : nat) | TtestSqF (idx : nat).
+(* Student's t with the pooled variance is irrational; its signed square sign(t) t^2 = d |d| / (sp2 (1/na + 1/nb)) is
+   rational and determines t: that is what the model computes for TestFunc.ttest (zero pooled variance: no value) *)
+Definition ssq (l : list Q) : Q := let m := qmean l in qsum (map (fun v => (v - m) * (v - m)) l).
+Definition ttest_signed_square (a b : list Q) : result Q :=
+  let na := qn (length a) in let nb := qn (length b) in
+  let sp2 := (ssq a + ssq b) / (na + nb - 2) in
+  let d := qmean a - qmean b in
+  let den := sp2 * (1 / na + 1 / nb) in
+  if Qeq_bool den 0 then Err ValueError else Ok (d * Qabs d / den).
 Definition column (e : list (list Q)) (i : nat) : list Q := map (fun r => nth i r 0) e.
 Definition eval_test (f : testfn) (g : list Z) (resp : list (list Q)) : result Q :=
   match f with
@@ -36,6 +45,11 @@ Definition eval_test (f : testfn) (g : list Z) (resp : list (list Q)) : result Q
       | _ => Err ValueError
       end
   | AnovaF i => let x := column resp i in Ok (one_way_anova x g (qmean x))
+  | TtestSqF i =>
+      match unique g with
+      | [g0; g1] => ttest_signed_square (select (column resp i) g g0) (select (column resp i) g g1)
+      | _ => Err ValueError
+      end
   end.
 Fixpoint eval_tests (fs : list testfn) (g : list Z) (resp : list (list Q)) : result (list Q) :=
   match fs with
